@@ -370,7 +370,7 @@ static std::string op_decver(const std::vector<std::string> &a, bool dec)
 }
 
 // ---- path-based operations for large files (production constants) ----
-// encp CM HM T KEY SEED INPATH OUTPATH   |  decp T KEY INPATH OUTPATH  |  verp T KEY INPATH
+// encp CM HM T KEY SEED INPATH OUTPATH [ANNOUNCED-SIZE]   |  decp T KEY INPATH OUTPATH  |  verp T KEY INPATH
 static std::string op_paths(const std::vector<std::string> &a)
 {
   bool r;
@@ -383,6 +383,8 @@ static std::string op_paths(const std::vector<std::string> &a)
     fseek(fin, 0, SEEK_END);
     size_t sz = ftell(fin);
     fseek(fin, 0, SEEK_SET);
+    if (a.size() > 8)       // the size the caller ANNOUNCES (it is documented as progress information only)
+      sz = strtoull(a[8].c_str(), NULL, 10);
     Settings st(atoi(a[1].c_str()), atoi(a[2].c_str()), true);
     runcrypt rc(fin, fo, place_key(key), st, (u8_t)atoi(a[3].c_str()));
     r = rc.execute_encrypt(sz, seed.data());
